@@ -52,26 +52,27 @@ Case generate() {
   Case c;
   c.f.assign(F_COUNT, 0);
   gen_schedule(c);
-  c[F_IMPL] = *gen::inRange(0, 7);
-  c[F_TOPO] = *gen::inRange(1, NTOPO);
+  c[F_IMPL] = *uni(0, 7);
+  c[F_TOPO] = *uni(1, NTOPO);
   int maxt  = TOPO_THREADS[c[F_TOPO]];
-  c[F_REGIONS] = *gen::inRange(1, 5);
+  c[F_REGIONS] = *uni(1, 5);
   bool simple_excl = c[F_IMPL] == 5 && excluded("C05/simple/deadlock");
   for (int r = 0; r < 4; ++r) {
-    int n = *gen::inRange(1, maxt + 1);
+    int n = *uni(1, maxt + 1);
     if (simple_excl && n > 1) {
       count_excluded();
       n = 1;
     }
     c[F_N0 + r] = n;
-    c[F_P0 + r] = *gen::inRange(1, 13);
+    c[F_P0 + r] = *uni(1, 13);
   }
-  c[F_DSEED] = *gen::inRange(0, 1 << 20);
+  c[F_DSEED] = *uni(0, 1 << 20);
   return c;
 }
 
 std::string finding_key(const Case& c, const std::string& failkey) {
-  return std::string("C05/") + IMPLS[c[F_IMPL]] + "/" + failkey;
+  std::string k = failkey == "spin-deadlock" ? "deadlock" : failkey;
+  return std::string("C05/") + IMPLS[c[F_IMPL]] + "/" + k;
 }
 
 // ---- bookkeeping (uninstrumented, serialised by the scheduler)
